@@ -19,6 +19,9 @@ SCM_TEXT = ("the instruction set the emitter can place after Loop1CharBody is re
             "and the same arms of pikevm::try_match_state must produce only Continue/Fail")
 
 
+BT_DISPATCH = "classicalbacktrack::MatchAttempter::<'a, Input>::try_at_pos"
+
+
 def insn_ctors(expr):
     return {H.short(c) for c in H.ctor_paths(expr) if c.startswith("insn::Insn::")}
 
@@ -126,6 +129,44 @@ def check(facts):
         else:
             r.fail("sibling arm sets equal", "with_scm_loop_impl and with_scm_compute_max handle different instructions: %s" %
                    sorted(a ^ b), facts.loc(COMPUTE_MAX))
+    # the matcher each arm hands to the loop helpers: the two siblings (and the plain instruction's arm in try_at_pos, where it
+    # uses an scm matcher) must agree per instruction
+    def matchers_of(arm):
+        import json as _j
+        names = set()
+        for c in list(H.calls_in(arm["body"])) + list(H.ctor_paths(arm["body"])):
+            mm = re.match(r"^scm::(\w+)", c or "")
+            if mm:
+                names.add(mm.group(1))
+        for mm in re.finditer(r'"(?:path|adt)": "scm::(\w+)', _j.dumps(arm["body"])):
+            names.add(mm.group(1))
+        return names - {"SingleCharMatcher"}
+    arm_m = {}
+    for fn in (LOOP_IMPL, COMPUTE_MAX, BT_DISPATCH):
+        if fn not in facts.hir:
+            continue
+        ms_ = H.find_matches(facts.hir[fn]["body"], INSN_RX)
+        for m_ in ms_:
+            for v, arms in H.arms_by_variant(m_).items():
+                for a_ in arms:
+                    mset = matchers_of(a_)
+                    if mset:
+                        arm_m.setdefault(v, {}).setdefault(fn, set()).update(mset)
+    ncmp = 0
+    for v in sorted(req):
+        per = arm_m.get(v, {})
+        if LOOP_IMPL not in per or COMPUTE_MAX not in per:
+            continue
+        ncmp += 1
+        key = "matcher for Insn::%s agrees" % v
+        vals = {fn: per[fn] for fn in per}
+        if len({tuple(sorted(x)) for x in vals.values()}) == 1:
+            r.ok(key, "scm::%s in %d places" % ("/".join(sorted(per[LOOP_IMPL])), len(vals)))
+        else:
+            r.fail(key, "the single-character matcher used for Insn::%s differs between %s: the greedy, the lazy and the plain form of "
+                        "the same instruction accept different characters (e.g. `.` under the s flag stops at line terminators only "
+                        "in the lazy loop)" % (v, {fn.split("::")[-1]: sorted(x) for fn, x in vals.items()}), facts.loc(COMPUTE_MAX))
+    r.floor("matcher_agreements", ncmp, 6)
     # PikeVM
     if PIKE in facts.hir:
         m = one_match(facts, PIKE, INSN_RX, r)
